@@ -55,6 +55,10 @@ fn unary_obs(bb: BitBoard, rng: &mut impl Rng) -> Value {
     let count = bb.count() as usize;
     let collected_pos: BitBoard = members(bb).iter().map(|&s| sq(s)).collect();
     let collected_bb: BitBoard = members(bb).iter().map(|&s| BitBoard::from_pos(sq(s))).collect();
+    // collection from overlapping inputs (a union, not a symmetric difference) and from repeated squares
+    let low = BitBoard::from_u64(bb.to_u64() & 0x0000_0000_ffff_ffff);
+    let collected_overlap: BitBoard = [bb, low, bb, BitBoard::empty()].into_iter().collect();
+    let collected_dups: BitBoard = members(bb).iter().chain(members(bb).iter()).map(|&s| sq(s)).collect();
     let mut wc = vec![];
     for _ in 0..4 {
         let s = rng.gen_range(0..64u8);
@@ -88,6 +92,7 @@ fn unary_obs(bb: BitBoard, rng: &mut impl Rng) -> Value {
         "iter": iter, "into_iter": into_iter, "hint_lo": hint.0, "hint_hi": hint.1.map_or(-1i64, |h| h as i64),
         "members": (0..64u8).filter(|&s| bb.contains(sq(s))).collect::<Vec<u8>>(),
         "collected": members(collected_pos), "collected_bb": members(collected_bb),
+        "collected_overlap": members(collected_overlap), "collected_dups": members(collected_dups),
         "wc": wc, "nth": nth,
     })
 }
@@ -141,6 +146,7 @@ pub fn replay_bb(_opts: &Opts) -> i32 {
             }
             if o["into_iter"] != rec["iter"] || o["not2"] != rec["not"] || o["members"] != rec["bb"]
                 || o["collected"] != rec["bb"] || o["collected_bb"] != rec["bb"]
+                || o["collected_overlap"] != rec["bb"] || o["collected_dups"] != rec["bb"]
                 || o["hint_lo"] != rec["count"] || o["hint_hi"] != rec["count"]
             {
                 mism += 1;
